@@ -1,6 +1,9 @@
 package templ
 
-import "context"
+import (
+	"context"
+	"encoding/json"
+)
 
 type verifRecJS struct{ b []byte }
 
@@ -147,4 +150,33 @@ func verifJSONEq(a, b verifJSON) bool {
 		ok = ok && verifJSONEq(a.Elts[i], b.Elts[i])
 	}
 	return ok
+}
+
+var verifRawOK = func() (t [256]bool) {
+	for c := 0x20; c < 256; c++ {
+		t[c] = c != '"' && c != '\\'
+	}
+	return
+}()
+
+// VerifC03RawParam: an argument that is already JSON (json.RawMessage) is data only as well.
+func VerifC03RawParam() {
+	v := symString("v", symParam("N"))
+	ok := true
+	for i := 0; i < len(v); i++ {
+		ok = symAnd(ok, verifRawOK[v[i]])
+	}
+	symAssume(ok) // "v" is a valid JSON string body without escapes
+	raw := json.RawMessage("\"" + v + "\"")
+	inline := SafeScriptInline("fn", raw)
+	call := SafeScript("fn", raw)
+	symCover("rawparam")
+	symAssert(verifScriptSafe(inline) && !verifHasByte(inline, '<'), "raw JSON argument: the inline call cannot end the script element or open a comment")
+	dec, dok := verifAttrDecode(call)
+	symAssert(dok && dec == inline, "raw JSON argument: the attribute form decodes to the inline form")
+	symAssert(len(inline) >= 4 && inline[:3] == "fn(" && inline[len(inline)-1] == ')', "raw JSON argument: call shape")
+	if len(inline) >= 3 {
+		a0, j, ok0 := verifJSONValue(inline, 3)
+		symAssert(ok0 && j == len(inline)-1 && a0.Kind == 's' && a0.Str == v, "raw JSON argument: evaluates to the JSON value")
+	}
 }
